@@ -158,7 +158,7 @@ def run(ctx):
         ctx.bad('C17.2-fresh-key', 'channel', '%d oneshot channels created per call (expected 1)' % len(chans), ctx.where(B), key='PROV:%s:channels' % RPC)
 
     # ---- clause 1: PAIR ------------------------------------------------------------------
-    ctx.rule('C17.1-pair', 'after pending_rpcs.insert(k, tx) every exit passed pending_rpcs.remove(k) or lies on the receiver-completed edge (entry consumed by the router)', floor=4)
+    ctx.rule('C17.1-pair', 'after pending_rpcs.insert(k, tx) every exit passed pending_rpcs.remove(k) or lies on the receiver-completed edge (entry consumed by the router)', floor=2)
     rem_blocks = []
     for rb, rt in removes:
         if key_local(B, rt['args'][1]) == klocal:
